@@ -400,7 +400,7 @@ structure Holding (cfg : AddrCfg) (L : LinkCfg) (tree : Nat → List Nat) (d : L
   act : s.cur ∈ s.active
   dist : dist (tree s.cur) d = n
   ahead : ∀ k, 1 ≤ k → k ≤ n → ∃ j, j < s.nodes.length ∧ tree j = hops k (tree s.cur) d ∧ j ∉ s.active ∧
-    (s.radioAt j).lastRx = none
+    NotDup (s.radioAt j) pk
   fifo : ∃ p, p ≤ 5 ∧ (s.radioAt s.cur).rxFifo = [{ pipe := p, data := pk }]
   empty : ∀ j, j < s.nodes.length → j ≠ s.cur → (s.radioAt j).rxFifo = []
   acc : ∀ j, j < s.nodes.length → tree j = d → Accepts (s.nodeAt j).queue fr
@@ -809,7 +809,7 @@ theorem route_step (hc : L3Contracts) (cfg : AddrCfg) (hcfg : CfgOk cfg) (L : Li
     rw [this, Aqueue k hk, hsjq]
 
 /-- **The journey**: whoever holds the frame `n` hops from its destination — with the rest of the
-    route present, idle and never having received anything, the network otherwise quiet — its
+    route present, idle and not having `pk` as the packet accepted last (`NotDup`), the network otherwise quiet — its
     `update()` brings the frame to the destination's queue, exactly once, and leaves the network
     listening and quiet.  Induction over the remaining distance. -/
 theorem route_all (hc : L3Contracts) (cfg : AddrCfg) (hcfg : CfgOk cfg) (L : LinkCfg) (tree : Nat → List Nat)
